@@ -68,7 +68,7 @@ def nested_files():
     return out
 
 
-def plan(tier, seed):
+def _plan_core(tier, seed):
     fx = env.fixtures()
     names = [os.path.relpath(f, env.FIXTURE_DIR) for f in fx] + ["gen:mm-in-mm-with-sampler-effect.sunvox",
                                                                    "gen:metamodule-nested.sunsynth", "gen:sampler-with-effect.sunsynth"]
@@ -450,6 +450,11 @@ def clone_faults(res, judge, fp, name, data, rng, tier):
 
 
 def run_shard(spec_, res):
+    if spec_.get("part") == "soak":
+        from .. import soak
+        for s_ in spec_["soak_seeds"]:
+            soak.run(res, s_, spec_["tier"], PROPERTY, SOAK_KINDS, spec_["steps"])
+        return
     rng = random.Random(spec_["seed"])
     tier = spec_["tier"]
     gen = None
@@ -508,3 +513,16 @@ def finalize(merged, tier):
 
 def replay(case, res):
     res.inconclusive.append("replay by re-running the shard; the fault point is in the replay file")
+
+
+# ------------------------------------------------------------------ soak slice (rvmon.soak): long mixed histories on a pool of objects
+SOAK_KINDS = ['strictness']
+
+
+def plan(tier, seed):
+    specs = _plan_core(tier, seed)
+    k = 2 if tier == "quick" else 8
+    for i in range(k):
+        specs.append({"tier": tier, "part": "soak", "soak_seeds": [seed * 100003 + 1000 * i + j for j in range(8 if tier == "quick" else 40)],
+                      "steps": 150 if tier == "quick" else 300, "seed": seed, "shard": 1000 + i})
+    return specs
